@@ -19,3 +19,39 @@ Corollary C05_full_false_by_getItem_column_index_not_offset : ~ C05_full.
 Proof. destruct C05_refuted_getItem_column_index_not_offset as (t & en & W & D & B). exact (bad_refutes gen_cfg t en W D B). Qed.
 Print Assumptions C05_full_false_by_getItem_column_index_not_offset.
 
+
+(* ---- signature: C05/cast-fraction-to-integer-rounds *)
+(** col('d').cast('int')   emits   CAST("d" AS INT) *)
+Theorem C05_refuted_cast_fraction_to_integer_rounds : exists t en, uwf t = true /\ udom en t = true /\ bad gen_cfg en t = true.
+Proof.
+  exists (UCast (UCol "d"%string) "INT"%string).
+  exists (mkEnv ["a"%string; "b"%string; "s"%string; "t"%string; "p"%string; "q"%string; "d"%string] [VNull; (VInt (-1)%Z); VNull; VNull; (VBool false); (VBool true); (VRat (7)%Z 4%positive)] [("l"%string, [(VInt (7)%Z)])]).
+  vm_compute. repeat split.
+Qed.
+Corollary C05_full_false_by_cast_fraction_to_integer_rounds : ~ C05_full.
+Proof. destruct C05_refuted_cast_fraction_to_integer_rounds as (t & en & W & D & B). exact (bad_refutes gen_cfg t en W D B). Qed.
+Print Assumptions C05_full_false_by_cast_fraction_to_integer_rounds.
+
+(* ---- signature: C05/substr-negative-start-before-string *)
+(** col('s').substr(-3, 1)   emits   SUBSTRING("s", -3, 1) *)
+Theorem C05_refuted_substr_negative_start_before_string : exists t en, uwf t = true /\ udom en t = true /\ bad gen_cfg en t = true.
+Proof.
+  exists (USubstr (UCol "s"%string) (UPy (VInt (-3)%Z)) (UPy (VInt (1)%Z))).
+  exists (mkEnv ["a"%string; "b"%string; "s"%string; "t"%string; "p"%string; "q"%string; "d"%string] [VNull; (VInt (1)%Z); (VStr "a"%string); (VStr "ab"%string); (VBool true); (VBool false); VNull] [("l"%string, [])]).
+  vm_compute. repeat split.
+Qed.
+Corollary C05_full_false_by_substr_negative_start_before_string : ~ C05_full.
+Proof. destruct C05_refuted_substr_negative_start_before_string as (t & en & W & D & B). exact (bad_refutes gen_cfg t en W D B). Qed.
+Print Assumptions C05_full_false_by_substr_negative_start_before_string.
+
+(* ---- signature: C05/substr-start-zero *)
+(** col('s').substr(0, 2)   emits   SUBSTRING("s", 0, 2) *)
+Theorem C05_refuted_substr_start_zero : exists t en, uwf t = true /\ udom en t = true /\ bad gen_cfg en t = true.
+Proof.
+  exists (USubstr (UCol "s"%string) (UPy (VInt (0)%Z)) (UPy (VInt (2)%Z))).
+  exists (mkEnv ["a"%string; "b"%string; "s"%string; "t"%string; "p"%string; "q"%string; "d"%string] [(VInt (0)%Z); (VInt (0)%Z); (VStr "ab"%string); (VStr "ab"%string); (VBool true); (VBool true); (VRat (0)%Z 1%positive)] [("l"%string, [])]).
+  vm_compute. repeat split.
+Qed.
+Corollary C05_full_false_by_substr_start_zero : ~ C05_full.
+Proof. destruct C05_refuted_substr_start_zero as (t & en & W & D & B). exact (bad_refutes gen_cfg t en W D B). Qed.
+Print Assumptions C05_full_false_by_substr_start_zero.
